@@ -378,256 +378,268 @@ func injectTable(c *core.Ctx, maxLen int) (rs rows, runs int, undecided string) 
 	for _, ptype := range []string{"Component", "Configuration"} {
 		for _, kind := range kinds {
 			for _, required := range []bool{true, false} {
-				for _, lst := range lists {
-					if ptype != "Component" && (kind != 22 || len(lst) > 1) {
-						continue
-					}
-					var events []string
-					var n, H *absint.Tok
-					var metas []*absint.Tok
-					var content absint.Value
-					var nFieldSets int
-					build := func() (absint.Oracle, []absint.Value, []absint.Value) {
-						events = nil
-						t := newTbl(c)
-						n = absint.NewTok("prop", "property")
-						H = absint.NewTok("H", "holdermeta")
-						n.Fields["PropertyType"] = absint.Str(ptype)
-						fld := absint.NewTok("prop.Field", "field")
-						base := absint.NewTok("prop.Field.Base", "base")
-						typ := absint.NewTok("fieldType", "type")
-						fv := absint.NewTok("fieldValue", "rvalue")
-						hold := absint.NewTok("holder", "holder")
-						n.Fields["Field"], fld.Fields["Base"], fld.Fields["Holder"] = fld, base, hold
-						base.Fields["Type"], base.Fields["Value"], hold.Fields["Meta"] = typ, fv, H
-						in := &absint.List{IsNil: len(lst) == 0}
-						metas = nil
-						for i, k := range lst {
-							m := absint.NewTok(fmt.Sprintf("M%d", i), k)
-							metas = append(metas, m)
-							in.Elems = append(in.Elems, m)
+				for _, lst0 := range lists {
+					for _, prefilled := range []bool{false, true} {
+						lst := lst0
+						if ptype != "Component" && (kind != 22 || len(lst) > 1) {
+							continue
 						}
-						t.invokeN["Kind"] = func(ip *absint.Interp, args []absint.Value) absint.Value { return absint.Int(kind) }
-						t.callee[isReq] = func(ip *absint.Interp, args []absint.Value) absint.Value { return absint.Bool(required) }
-						t.callee[isSelf] = func(ip *absint.Interp, args []absint.Value) absint.Value {
-							m, ok := args[1].(*absint.Tok)
-							if !ok || args[0] != absint.Value(H) {
-								panic(&absint.Undecided{Msg: "IsSelf is not asked of the holder's definition about a candidate"})
+						if prefilled && kind != 23 {
+							continue // a slice field the application filled before start-up
+						}
+						var events []string
+						var n, H *absint.Tok
+						var metas []*absint.Tok
+						var content absint.Value
+						var nFieldSets int
+						build := func() (absint.Oracle, []absint.Value, []absint.Value) {
+							events = nil
+							t := newTbl(c)
+							n = absint.NewTok("prop", "property")
+							H = absint.NewTok("H", "holdermeta")
+							n.Fields["PropertyType"] = absint.Str(ptype)
+							fld := absint.NewTok("prop.Field", "field")
+							base := absint.NewTok("prop.Field.Base", "base")
+							typ := absint.NewTok("fieldType", "type")
+							fv := absint.NewTok("fieldValue", "rvalue")
+							hold := absint.NewTok("holder", "holder")
+							n.Fields["Field"], fld.Fields["Base"], fld.Fields["Holder"] = fld, base, hold
+							base.Fields["Type"], base.Fields["Value"], hold.Fields["Meta"] = typ, fv, H
+							in := &absint.List{IsNil: len(lst) == 0}
+							metas = nil
+							for i, k := range lst {
+								m := absint.NewTok(fmt.Sprintf("M%d", i), k)
+								metas = append(metas, m)
+								in.Elems = append(in.Elems, m)
 							}
-							return absint.Bool(m.Class == "self")
-						}
-						if dependOn != nil {
-							t.callee[dependOn] = func(ip *absint.Interp, args []absint.Value) absint.Value {
-								events = append(events, "DEPON "+absint.Show(args[0])+" "+absint.Show(args[1]))
+							t.invokeN["Kind"] = func(ip *absint.Interp, args []absint.Value) absint.Value { return absint.Int(kind) }
+							t.callee[isReq] = func(ip *absint.Interp, args []absint.Value) absint.Value { return absint.Bool(required) }
+							t.callee[isSelf] = func(ip *absint.Interp, args []absint.Value) absint.Value {
+								m, ok := args[1].(*absint.Tok)
+								if !ok || args[0] != absint.Value(H) {
+									panic(&absint.Undecided{Msg: "IsSelf is not asked of the holder's definition about a candidate"})
+								}
+								return absint.Bool(m.Class == "self")
+							}
+							if dependOn != nil {
+								t.callee[dependOn] = func(ip *absint.Interp, args []absint.Value) absint.Value {
+									events = append(events, "DEPON "+absint.Show(args[0])+" "+absint.Show(args[1]))
+									return nil
+								}
+							}
+							if stack != nil {
+								t.callee[stack] = func(ip *absint.Interp, args []absint.Value) absint.Value { return &absint.Opaque{Why: "text"} }
+							}
+							// a small model of reflect values: the field is a location, slices are objects with element slots
+							content = nil
+							if prefilled {
+								old := absint.NewTok("rslice", "rslice")
+								old.Attr["elems"] = &absint.List{Elems: []absint.Value{absint.NewTok("OLD", "rvalue")}}
+								old.Attr["type"] = typ
+								content = old
+							}
+							nFieldSets = 0
+							elemsOf := func(v absint.Value) (*absint.List, bool) {
+								if v == absint.Value(fv) {
+									v = content
+								}
+								if v == nil {
+									return &absint.List{}, true
+								}
+								if s, ok := v.(*absint.Tok); ok && s.Class == "rslice" {
+									return s.Attr["elems"].(*absint.List), true
+								}
+								return nil, false
+							}
+							newSlice := func(elems []absint.Value, typ absint.Value) *absint.Tok {
+								s := absint.NewTok("rslice", "rslice")
+								s.Attr["elems"] = &absint.List{Elems: elems}
+								s.Attr["type"] = typ
+								return s
+							}
+							t.ext["reflect.MakeSlice"] = func(ip *absint.Interp, args []absint.Value) absint.Value {
+								n, ok := args[1].(absint.Int)
+								if !ok {
+									panic(&absint.Undecided{Msg: "MakeSlice with an unknown length"})
+								}
+								var el []absint.Value
+								for i := 0; i < int(n); i++ {
+									el = append(el, absint.Nil{})
+								}
+								return newSlice(el, args[0])
+							}
+							t.ext["(reflect.Value).Set"] = func(ip *absint.Interp, args []absint.Value) absint.Value {
+								dst, _ := args[0].(*absint.Tok)
+								switch {
+								case dst == fv:
+									content = args[1]
+									nFieldSets++
+								case dst != nil && dst.Class == "rindex":
+									l := dst.Attr["parent"].(*absint.Tok).Attr["elems"].(*absint.List)
+									l.Elems[int(dst.Attr["i"].(absint.Int))] = args[1]
+								default:
+									events = append(events, "SET-ELSEWHERE "+absint.Show(args[0]))
+								}
 								return nil
 							}
-						}
-						if stack != nil {
-							t.callee[stack] = func(ip *absint.Interp, args []absint.Value) absint.Value { return &absint.Opaque{Why: "text"} }
-						}
-						// a small model of reflect values: the field is a location, slices are objects with element slots
-						content = nil
-						nFieldSets = 0
-						elemsOf := func(v absint.Value) (*absint.List, bool) {
-							if v == absint.Value(fv) {
-								v = content
-							}
-							if v == nil {
-								return &absint.List{}, true
-							}
-							if s, ok := v.(*absint.Tok); ok && s.Class == "rslice" {
-								return s.Attr["elems"].(*absint.List), true
-							}
-							return nil, false
-						}
-						newSlice := func(elems []absint.Value, typ absint.Value) *absint.Tok {
-							s := absint.NewTok("rslice", "rslice")
-							s.Attr["elems"] = &absint.List{Elems: elems}
-							s.Attr["type"] = typ
-							return s
-						}
-						t.ext["reflect.MakeSlice"] = func(ip *absint.Interp, args []absint.Value) absint.Value {
-							n, ok := args[1].(absint.Int)
-							if !ok {
-								panic(&absint.Undecided{Msg: "MakeSlice with an unknown length"})
-							}
-							var el []absint.Value
-							for i := 0; i < int(n); i++ {
-								el = append(el, absint.Nil{})
-							}
-							return newSlice(el, args[0])
-						}
-						t.ext["(reflect.Value).Set"] = func(ip *absint.Interp, args []absint.Value) absint.Value {
-							dst, _ := args[0].(*absint.Tok)
-							switch {
-							case dst == fv:
-								content = args[1]
-								nFieldSets++
-							case dst != nil && dst.Class == "rindex":
-								l := dst.Attr["parent"].(*absint.Tok).Attr["elems"].(*absint.List)
-								l.Elems[int(dst.Attr["i"].(absint.Int))] = args[1]
-							default:
-								events = append(events, "SET-ELSEWHERE "+absint.Show(args[0]))
-							}
-							return nil
-						}
-						t.ext["(reflect.Value).Index"] = func(ip *absint.Interp, args []absint.Value) absint.Value {
-							parent := args[0]
-							if parent == absint.Value(fv) {
-								parent = content
-							}
-							ps, ok := parent.(*absint.Tok)
-							i, okI := args[1].(absint.Int)
-							if !ok || ps.Class != "rslice" || !okI {
-								panic(&absint.GoPanic{Msg: "reflect: Index of a non-slice value"})
-							}
-							if int(i) < 0 || int(i) >= len(ps.Attr["elems"].(*absint.List).Elems) {
-								panic(&absint.GoPanic{Msg: "reflect: slice index out of range"})
-							}
-							r := absint.NewTok(fmt.Sprintf("slot[%d]", i), "rindex")
-							r.Attr["parent"], r.Attr["i"] = ps, i
-							return r
-						}
-						t.ext["reflect.Append"] = func(ip *absint.Interp, args []absint.Value) absint.Value {
-							base, ok := elemsOf(args[0])
-							if !ok {
-								panic(&absint.Undecided{Msg: "reflect.Append to something that is not a modelled slice"})
-							}
-							el := append([]absint.Value(nil), base.Elems...)
-							if more, isL := args[1].(*absint.List); isL {
-								el = append(el, more.Elems...)
-							}
-							return newSlice(el, typ)
-						}
-						t.ext["reflect.AppendSlice"] = func(ip *absint.Interp, args []absint.Value) absint.Value {
-							a, ok1 := elemsOf(args[0])
-							b, ok2 := elemsOf(args[1])
-							if !ok1 || !ok2 {
-								panic(&absint.Undecided{Msg: "reflect.AppendSlice of unmodelled values"})
-							}
-							return newSlice(append(append([]absint.Value(nil), a.Elems...), b.Elems...), typ)
-						}
-						t.ext["(reflect.Value).Len"] = func(ip *absint.Interp, args []absint.Value) absint.Value {
-							l, ok := elemsOf(args[0])
-							if !ok {
-								panic(&absint.Undecided{Msg: "reflect Len of an unmodelled value"})
-							}
-							return absint.Int(len(l.Elems))
-						}
-						return t, []absint.Value{n, in}, nil
-					}
-					check := func(ip *absint.Interp, out absint.Outcome) {
-						w := fmt.Sprintf("type=%s kind=%d required=%v candidates=%v effects=%v => %s", ptype, kind, required, lst, events, showOutcome(out))
-						if out.Panic != nil {
-							rs.fail("nothing-to-inject", "PANIC: "+w)
-							return
-						}
-						isErr := len(out.Ret) == 1 && isErrTok(out.Ret[0])
-						var nonself []*absint.Tok
-						for _, m := range metas {
-							if m.Class != "self" {
-								nonself = append(nonself, m)
-							}
-						}
-						if ptype != "Component" {
-							rs.hit("wrong-property-type")
-							if !isErr || len(events) != 0 || nFieldSets != 0 {
-								rs.fail("wrong-property-type", w)
-							}
-							return
-						}
-						if len(nonself) == 0 {
-							rs.hit("nothing-to-inject")
-							if isErr != required || len(events) != 0 || nFieldSets != 0 {
-								rs.fail("nothing-to-inject", w)
-							}
-							return
-						}
-						row := "single"
-						depon := map[string]int{}
-						other := 0
-						for _, e := range events {
-							if strings.HasPrefix(e, "DEPON ") {
-								depon[e]++
-							} else {
-								other++
-							}
-						}
-						if kind == 23 || kind == 17 {
-							row = "slice"
-							rs.hit(row)
-							okAll := !isErr && other == 0
-							sl, isS := content.(*absint.Tok)
-							if !isS || sl.Class != "rslice" || sl.Attr["type"] != absint.Value(nil) && absint.Show(sl.Attr["type"]) != "fieldType" {
-								okAll = false
-							} else {
-								got := map[string]int{}
-								for _, e := range sl.Attr["elems"].(*absint.List).Elems {
-									got[absint.Show(e)]++
+							t.ext["(reflect.Value).Index"] = func(ip *absint.Interp, args []absint.Value) absint.Value {
+								parent := args[0]
+								if parent == absint.Value(fv) {
+									parent = content
 								}
-								if len(got) != len(nonself) {
+								ps, ok := parent.(*absint.Tok)
+								i, okI := args[1].(absint.Int)
+								if !ok || ps.Class != "rslice" || !okI {
+									panic(&absint.GoPanic{Msg: "reflect: Index of a non-slice value"})
+								}
+								if int(i) < 0 || int(i) >= len(ps.Attr["elems"].(*absint.List).Elems) {
+									panic(&absint.GoPanic{Msg: "reflect: slice index out of range"})
+								}
+								r := absint.NewTok(fmt.Sprintf("slot[%d]", i), "rindex")
+								r.Attr["parent"], r.Attr["i"] = ps, i
+								return r
+							}
+							t.ext["reflect.Append"] = func(ip *absint.Interp, args []absint.Value) absint.Value {
+								base, ok := elemsOf(args[0])
+								if !ok {
+									panic(&absint.Undecided{Msg: "reflect.Append to something that is not a modelled slice"})
+								}
+								el := append([]absint.Value(nil), base.Elems...)
+								if more, isL := args[1].(*absint.List); isL {
+									el = append(el, more.Elems...)
+								}
+								return newSlice(el, typ)
+							}
+							t.ext["reflect.AppendSlice"] = func(ip *absint.Interp, args []absint.Value) absint.Value {
+								a, ok1 := elemsOf(args[0])
+								b, ok2 := elemsOf(args[1])
+								if !ok1 || !ok2 {
+									panic(&absint.Undecided{Msg: "reflect.AppendSlice of unmodelled values"})
+								}
+								return newSlice(append(append([]absint.Value(nil), a.Elems...), b.Elems...), typ)
+							}
+							t.ext["(reflect.Value).Len"] = func(ip *absint.Interp, args []absint.Value) absint.Value {
+								l, ok := elemsOf(args[0])
+								if !ok {
+									panic(&absint.Undecided{Msg: "reflect Len of an unmodelled value"})
+								}
+								return absint.Int(len(l.Elems))
+							}
+							return t, []absint.Value{n, in}, nil
+						}
+						check := func(ip *absint.Interp, out absint.Outcome) {
+							w := fmt.Sprintf("type=%s kind=%d required=%v prefilled=%v candidates=%v effects=%v => %s", ptype, kind, required, prefilled, lst, events, showOutcome(out))
+							if out.Panic != nil {
+								rs.fail("nothing-to-inject", "PANIC: "+w)
+								return
+							}
+							isErr := len(out.Ret) == 1 && isErrTok(out.Ret[0])
+							var nonself []*absint.Tok
+							for _, m := range metas {
+								if m.Class != "self" {
+									nonself = append(nonself, m)
+								}
+							}
+							if ptype != "Component" {
+								rs.hit("wrong-property-type")
+								if !isErr || len(events) != 0 || nFieldSets != 0 {
+									rs.fail("wrong-property-type", w)
+								}
+								return
+							}
+							if len(nonself) == 0 {
+								rs.hit("nothing-to-inject")
+								if isErr != required || len(events) != 0 || nFieldSets != 0 {
+									rs.fail("nothing-to-inject", w)
+								}
+								return
+							}
+							row := "single"
+							depon := map[string]int{}
+							other := 0
+							for _, e := range events {
+								if strings.HasPrefix(e, "DEPON ") {
+									depon[e]++
+								} else {
+									other++
+								}
+							}
+							if kind == 23 || kind == 17 {
+								row = "slice"
+								rs.hit(row)
+								okAll := !isErr && other == 0
+								sl, isS := content.(*absint.Tok)
+								if !isS || sl.Class != "rslice" || sl.Attr["type"] != absint.Value(nil) && absint.Show(sl.Attr["type"]) != "fieldType" {
+									okAll = false
+								} else {
+									got := map[string]int{}
+									for _, e := range sl.Attr["elems"].(*absint.List).Elems {
+										got[absint.Show(e)]++
+									}
+									if len(got) != len(nonself) {
+										okAll = false
+									}
+									for _, m := range nonself {
+										if got[m.ID+".Base.Value"] != 1 {
+											okAll = false
+										}
+									}
+								}
+								if len(depon) != len(nonself) {
 									okAll = false
 								}
 								for _, m := range nonself {
-									if got[m.ID+".Base.Value"] != 1 {
+									if depon["DEPON "+m.ID+" H"] != 1 {
 										okAll = false
 									}
 								}
-							}
-							if len(depon) != len(nonself) {
-								okAll = false
-							}
-							for _, m := range nonself {
-								if depon["DEPON "+m.ID+" H"] != 1 {
-									okAll = false
-								}
-							}
-							if !okAll {
-								rs.fail(row, w+" field="+showContent(content))
-							}
-						} else {
-							rs.hit(row)
-							okOne := false
-							if !isErr && other == 0 && nFieldSets == 1 && len(depon) == 1 {
-								for _, m := range nonself {
-									if absint.Show(content) == m.ID+".Base.Value" && depon["DEPON "+m.ID+" H"] == 1 {
-										okOne = true
-									}
-								}
-							}
-							if !okOne {
-								rs.fail(row, w+" field="+showContent(content))
-							}
-						}
-						rs.hit("injects-recorded")
-						rec, _ := n.Fields["Injects"].(*absint.List)
-						okRec := rec != nil
-						if okRec {
-							if row == "slice" {
-								okRec = len(rec.Elems) == len(nonself)
-								for i := range nonself {
-									if okRec && rec.Elems[i] != absint.Value(nonself[i]) {
-										okRec = false
-									}
+								if !okAll {
+									rs.fail(row, w+" field="+showContent(content))
 								}
 							} else {
-								// the injected one must be recorded (possibly with the other non-self candidates)
-								for _, e := range rec.Elems {
-									if t, isT := e.(*absint.Tok); !isT || t.Class == "self" {
-										okRec = false
+								rs.hit(row)
+								okOne := false
+								if !isErr && other == 0 && nFieldSets == 1 && len(depon) == 1 {
+									for _, m := range nonself {
+										if absint.Show(content) == m.ID+".Base.Value" && depon["DEPON "+m.ID+" H"] == 1 {
+											okOne = true
+										}
 									}
 								}
-								okRec = okRec && len(rec.Elems) >= 1
+								if !okOne {
+									rs.fail(row, w+" field="+showContent(content))
+								}
+							}
+							rs.hit("injects-recorded")
+							rec, _ := n.Fields["Injects"].(*absint.List)
+							okRec := rec != nil
+							if okRec {
+								if row == "slice" {
+									okRec = len(rec.Elems) == len(nonself)
+									for i := range nonself {
+										if okRec && rec.Elems[i] != absint.Value(nonself[i]) {
+											okRec = false
+										}
+									}
+								} else {
+									// the injected one must be recorded (possibly with the other non-self candidates)
+									for _, e := range rec.Elems {
+										if t, isT := e.(*absint.Tok); !isT || t.Class == "self" {
+											okRec = false
+										}
+									}
+									okRec = okRec && len(rec.Elems) >= 1
+								}
+							}
+							if !okRec {
+								rs.fail("injects-recorded", w+" Injects="+absint.Show(n.Fields["Injects"]))
 							}
 						}
-						if !okRec {
-							rs.fail("injects-recorded", w+" Injects="+absint.Show(n.Fields["Injects"]))
+						n2, u := runTable(c, inj, build, check)
+						runs += n2
+						if u != "" {
+							return rs, runs, u
 						}
-					}
-					n2, u := runTable(c, inj, build, check)
-					runs += n2
-					if u != "" {
-						return rs, runs, u
 					}
 				}
 			}
